@@ -1,4 +1,4 @@
-import StepModel.LazyRefs
+import StepModel.LazyDict
 /-! Line-protocol driver for the `LazyRefs` model (C11).
   `resolve X KEY AGGR OVER ANAME AOWNER ; ID T1,T2|- O.N.A.R1+R2|O.N.A.- ... ; ID ...`  → `ok id id ..` | `crash`
   (flags = `fromSource`, regenerated from lazyRefs.h); anything else → `bad-op`. -/
@@ -25,7 +25,64 @@ def parseInst (s : String) : Option Inst :=
     pure { id := id, types := ty, attrs := ats }
   | _ => none
 
+def parsePair (s : String) : Option (Nat × Bool) :=
+  match s.splitOn "." with
+  | [n, a] => do let n ← n.toNat?; pure (n, a == "1")
+  | _ => none
+
+def parseInv (s : String) : Option InvDecl :=
+  match s.splitOn "." with
+  | [k, a, o, n] => do
+    let k ← k.toNat?
+    let o ← o.toNat?
+    let n ← n.toNat?
+    pure { key := k, aggr := a == "1", over := o, attrName := n }
+  | _ => none
+
+def parseList {α} (f : String → Option α) (s : String) : Option (List α) :=
+  if s == "-" || s == "" then some [] else (s.splitOn ",").mapM f
+
+/-- `E name sups attrs redecl invs` -/
+def parseEnt (ws : List String) : Option EntityD :=
+  match ws with
+  | [n, sups, attrs, rd, invs] => do
+    let n ← n.toNat?
+    let sups ← parseNats ',' sups
+    let attrs ← parseList parsePair attrs
+    let rd ← parseNats ',' rd
+    let invs ← parseList parseInv invs
+    pure { name := n, sups := sups, attrs := attrs, redecl := rd, invs := invs }
+  | _ => none
+
+/-- `P id kw|- v1 v2 ...` (each value: ids joined by `+`, or `-`) -/
+def parsePInst (ws : List String) : Option PInst :=
+  match ws with
+  | id :: kw :: vals => do
+    let id ← id.toNat?
+    let vs ← vals.mapM (parseNats '+')
+    pure { id := id, kw := if kw == "-" then none else kw.toNat?, vals := vs }
+  | _ => none
+
+/-- `rd X K KEY AGGR OVER ANAME ; E … ; P …` : dictionary and population as data, everything else computed by the model -/
+def handleRd (recs : List String) : String :=
+  match recs with
+  | head :: rest =>
+    match (head.splitOn " ").filter (· ≠ "") with
+    | ["rd", x, k, key, a, o, an] =>
+      let toks := rest.map (fun r => (r.splitOn " ").filter (· ≠ ""))
+      let ents := (toks.filter (fun t => t.head? == some "E")).mapM (fun t => parseEnt t.tail)
+      let pop := (toks.filter (fun t => t.head? == some "P")).mapM (fun t => parsePInst t.tail)
+      match x.toNat?, k.toNat?, key.toNat?, o.toNat?, an.toNat?, ents, pop with
+      | some x, some k, some key, some o, some an, some d, some pop =>
+        match resolveD d pop x k { key := key, aggr := a == "1", over := o, attrName := an } with
+        | .ok l => "ok" ++ String.join (l.map (fun n => s!" {n}"))
+        | .crash => "crash"
+      | _, _, _, _, _, _, _ => "bad-op"
+    | _ => "bad-op"
+  | [] => ""
+
 def handle (line : String) : String :=
+  if line.trimAscii.toString.startsWith "rd " then handleRd (line.trimAscii.toString.splitOn ";") else
   match line.trimAscii.toString.splitOn ";" with
   | head :: insts =>
     match (head.splitOn " ").filter (· ≠ "") with
